@@ -175,6 +175,23 @@ struct Run {
                 else if (o == "xaec") ret = ext->add_address_event_count(vr::aec_in(op["r"]), st) ? 1 : 0;
                 else if (o == "xmm") ret = ext->add_malformed_message(vr::mm_in(op["r"]), st) ? 1 : 0;
                 else if (o == "xwb") ret = exp->write_block(*ext);
+                else if (o == "xmove") {
+                    // the kept block changes its place (the application holds its blocks by value): the block that takes
+                    // over is the same block - content, stated parameter set and the parameters it is filled under
+                    std::string how = op.value("how", "mctor");
+                    if (how == "mctor") { std::unique_ptr<CdnsBlock> n(new CdnsBlock(std::move(*ext))); ext = std::move(n); }
+                    else if (how == "cctor") { std::unique_ptr<CdnsBlock> n(new CdnsBlock(*ext)); ext = std::move(n); }
+                    else if (how == "massign") { std::unique_ptr<CdnsBlock> n(new CdnsBlock(mybps[0], 0)); *n = std::move(*ext); ext = std::move(n); }
+                    else if (how == "cassign") { std::unique_ptr<CdnsBlock> n(new CdnsBlock(mybps[0], 0)); *n = *ext; ext = std::move(n); }
+                    else {      // a std::vector of blocks that grows
+                        std::vector<CdnsBlock> v;
+                        v.reserve(1);
+                        v.emplace_back(std::move(*ext));
+                        for (int k = 0; k < 3; k++) v.emplace_back(mybps[0], 0);
+                        ext.reset(new CdnsBlock(std::move(v[0])));
+                    }
+                    ret = 0;
+                }
                 else if (o == "wbx") {
                     // a block the application builds directly with the raw add_* API and hands to write_block(block)
                     index_t bpi = static_cast<index_t>(op["bpi"].get<uint64_t>());
